@@ -73,6 +73,7 @@ type FuncGen struct {
 	fspec        *frameSpec
 	pendingTrace *traceRec
 	pendingFnVal string
+	noSafetyNoted bool
 	globalAddrs  []string
 	inlineDepth  int
 	inlineSeq    int
@@ -167,7 +168,12 @@ func (fg *FuncGen) obligeAt(kind, text, cond, goal string, props []string, claus
 	} else {
 		o.IntMode = "math"
 	}
-	if goal != "true" {
+	nosafety := fg.ct != nil && fg.ct.NoSafety && (strings.HasPrefix(kind, "safe:") || kind == "typeinv" || kind == "pre@call" || kind == "objinv@call")
+	if nosafety && !fg.noSafetyNoted {
+		fg.noSafetyNoted = true
+		fg.note("partial correctness only (`safety off`): in %s run-time panics are not excluded and the preconditions of callees are ASSUMED, not checked", funcDisplayName(fg.fn))
+	}
+	if goal != "true" && !nosafety {
 		fg.obls = append(fg.obls, o)
 	}
 	fg.assume(implies(cond, goal))
